@@ -6,6 +6,7 @@ use std::panic::AssertUnwindSafe;
 
 use mqtt_proto::VarBytes;
 
+use crate::ast::*;
 use crate::case::*;
 use crate::dispatch;
 use crate::fam::Codec;
@@ -39,6 +40,13 @@ pub fn gen(rng: &mut Rng, tier: Tier, idx: u64) -> Case {
     let mut c = Case::new("C09", "c09-entrypoints", sw.fam, Front::B);
     let mut a = gen::gen_packet(rng, &sw);
     maybe_retarget(rng, &sw, &mut a, 200);
+    if let Ast::Publish { payload, props, .. } = &mut a {
+        // payloads at and above 64 KiB at a useful rate: encoders like to special-case them
+        if rng.chance(1, 30) && !gen::tiny() && !props.iter().any(|(id, _)| *id == 0x01) {
+            let n = *rng.pick(&[65_535usize, 65_536, 65_537, 100_000, 131_072]);
+            *payload = Bs(vec![0x5A; n]);
+        }
+    }
     gen::maybe_retarget_props(rng, sw.fam, &mut a, 40);
     let len = refcodec::ref_body_len(&a, sw.fam) + 5;
     c.packets = vec![a];
